@@ -65,7 +65,6 @@ import (
 	"context"
 	"fmt"
 	"math/rand"
-	"os"
 	"regexp"
 	"runtime"
 	"strconv"
@@ -351,8 +350,11 @@ func newHarness(r *lib.Run) *e2e.Harness {
 }
 
 // joinHeld releases the configuration and join stages of gc with the stimulus explained in
-// the comment (a backend that answers the proxy's FinishedUpdate within microseconds trips an
-// unrelated activation race of Gate's backendTransitionSessionHandler).
+// the comment: a backend that answers the proxy's FinishedUpdate within microseconds could
+// overtake the installation/activation of Gate's backendTransitionSessionHandler (an
+// unrelated race, repaired meanwhile by "install the transition handler before acknowledging
+// the backend's configuration"); a real backend is a network round trip away, so the fake one
+// waits a moment.
 func joinHeld(gc *e2e.GatedConn) {
 	gc.Release(e2e.StageConfig)
 	if gc.AwaitStage(e2e.StageJoin, e2e.Watchdog) {
@@ -497,14 +499,6 @@ func (s *sess) firstJoinAndSwitch() {
 	grace(gc1, sent, judged)
 	got, sts := received(gc1)
 	fs := judge("config-first-join", sent, got, judged, nil)
-	if len(fs) > 0 && os.Getenv("C24_DEBUG") != "" {
-		for _, rc := range gc1.Log() {
-			fmt.Fprintf(os.Stderr, "DBG backend-one log %s at=%d len=%d %.50q\n", rc.String(), rc.At, len(rc.Payload), rc.Payload)
-		}
-		for _, rc := range s.c.Log() {
-			fmt.Fprintf(os.Stderr, "DBG client log %s at=%d len=%d\n", rc.String(), rc.At, len(rc.Payload))
-		}
-	}
 	s.report("config-first-join", fs, sent, got)
 	cfgDelivered := 0
 	for _, st := range sts {
@@ -777,7 +771,8 @@ func (s *sess) capCase(cc capCase) {
 		}
 		mk, err := s.send("around", "c24:data", 24)
 		if err == nil {
-			err = awaitMarker(gc, mk, e2e.Watchdog)
+			// megabytes through a race-instrumented proxy next to other sessions: more patience
+			err = awaitMarker(gc, mk, 4*e2e.Watchdog)
 		}
 		if err != nil {
 			if disconnected(0) {
@@ -909,19 +904,23 @@ func TestC24(t *testing.T) {
 	r.Rule("layer 1 (e2e): one case = one plugin message sent by a fake client through a live proxy whose fake backend is held at a chosen stage; sessions: first-join in configuration (protocols 764..776, hold inside Dial or before login success, 0-60 early messages, 0-40 messages racing the release, 0-5 later ones, play messages after the join) followed by a switch to a second backend with 1-23 configuration messages; cap cases (1023/1024/1025/1100 messages, bodies just below / exactly / 1 byte above 4 MiB, 5 MiB); pre-join play messages of < 1.20.2 clients; distinct = (scenario, protocol, hold stage, counts, release point). layer 2 (unit, hook-built handlers): one case = one history of enqueue/flush operations racing on the real session handlers")
 	r.Assume("fake peers frame with the harness's own codec; each message body carries a unique id; 'early' is decided by the harness's logical clock (send returned before the gate was released); connections are FIFO so a marker sent last bounds what can still arrive")
 	rng := r.Rng("sessions")
+	t0 := time.Now()
 	cfgProtos := []proto.Protocol{764, 767, 775, 765, 766, 770, 776}
 	oldProtos := []proto.Protocol{763, 340, 754, 47, 758}
 	n := 0
+	type job struct {
+		s    *sess
+		kind string
+		f    func(*sess)
+	}
+	var jobs []job
 	run := func(pv proto.Protocol, kind string, f func(*sess)) {
 		s := &sess{r: r, n: n, pv: pv, rng: r.Rng(fmt.Sprintf("s%d", n)), name: fmt.Sprintf("P%d", n)}
 		s.desc = map[string]any{"session": n, "protocol": int(pv), "scenario": kind}
 		n++
-		ok, pv2 := lib.Returns(8*e2e.Watchdog, func() { f(s) })
-		if !ok {
-			r.Inconclusive(fmt.Sprintf("session %d (%s): did not finish within the watchdog (panic=%v)", s.n, kind, pv2))
-		}
+		jobs = append(jobs, job{s, kind, f})
 	}
-	first := r.N(120, 6000)
+	first := r.N(60, 3000)
 	for i := 0; i < first; i++ {
 		pv := cfgProtos[i%3]
 		if rng.Intn(4) == 0 {
@@ -929,14 +928,17 @@ func TestC24(t *testing.T) {
 		}
 		run(pv, "first-join+switch", (*sess).firstJoinAndSwitch)
 	}
-	capRounds := r.N(1, 12)
+	capRounds := r.N(1, 6)
 	for i := 0; i < capRounds; i++ {
 		for _, cc := range capCases(rng) {
+			if !r.Thorough() && (cc.Name == "count-1023" || cc.Name == "count-1100" || cc.Name == "bytes-exactly-4MiB" || cc.Name == "bytes-5MiB") {
+				continue // quick: the boundary pairs only (layer 2 runs all eight on both queues)
+			}
 			pv := cfgProtos[rng.Intn(3)]
 			run(pv, "cap", func(s *sess) { s.capCase(cc) })
 		}
 	}
-	pre := r.N(40, 1500)
+	pre := r.N(30, 1000)
 	for i := 0; i < pre; i++ {
 		pv := oldProtos[rng.Intn(len(oldProtos))]
 		if i%3 == 2 {
@@ -944,6 +946,31 @@ func TestC24(t *testing.T) {
 		}
 		run(pv, "pre-join", (*sess).preJoin)
 	}
+	// sessions are independent (own proxy, own PRNG stream): the thorough tier runs a few at a
+	// time, which also adds scheduling noise to the races; quick runs them one by one
+	workers := r.N(1, 6)
+	ch := make(chan job)
+	var wg sync.WaitGroup
+	for w := 0; w < workers; w++ {
+		wg.Add(1)
+		go func() {
+			defer wg.Done()
+			for j := range ch {
+				ok, pv2 := lib.Returns(8*e2e.Watchdog, func() { j.f(j.s) })
+				if !ok {
+					r.Inconclusive(fmt.Sprintf("session %d (%s): did not finish within the watchdog (panic=%v)", j.s.n, j.kind, pv2))
+				}
+			}
+		}()
+	}
+	for _, j := range jobs {
+		ch <- j
+	}
+	close(ch)
+	wg.Wait()
 	r.Set("e2e_sessions", n)
+	r.Set("layer1_wall_s", time.Since(t0).Seconds())
+	t1 := time.Now()
 	unitWorkload(r)
+	r.Set("layer2_wall_s", time.Since(t1).Seconds())
 }
